@@ -27,6 +27,24 @@ inductive PutResult (κ ν : Type) where
   | evictedAndUpdate (k : κ) (v : ν) (old : ν)
 deriving DecidableEq, Repr
 
+/-- the hand-written `PartialEq` of `PutResult` (lib.rs), branch by branch, over the payloads' own `==` -/
+def PutResult.peq {κ ν : Type} (eqk : κ → κ → Bool) (eqv : ν → ν → Bool) : PutResult κ ν → PutResult κ ν → Bool
+  | .put, .put => true
+  | .put, _ => false
+  | .update a, .update b => eqv b a
+  | .update _, _ => false
+  | .evicted k v, .evicted k' v' => eqk k k' && eqv v v'
+  | .evicted _ _, _ => false
+  | .evictedAndUpdate k v o, .evictedAndUpdate k' v' o' => eqk k k' && eqv v v' && eqv o o'
+  | .evictedAndUpdate _ _ _, _ => false
+
+/-- the hand-written `Clone` of `PutResult` over the payloads' own `clone` -/
+def PutResult.pclone {κ ν : Type} (ck : κ → κ) (cv : ν → ν) : PutResult κ ν → PutResult κ ν
+  | .put => .put
+  | .update o => .update (cv o)
+  | .evicted k v => .evicted (ck k) (cv v)
+  | .evictedAndUpdate k v o => .evictedAndUpdate (ck k) (cv v) (cv o)
+
 /-- a key object or a value object (for ownership accounting, C04) -/
 inductive Obj (κ ν : Type) where
   | key (k : κ)
